@@ -145,6 +145,12 @@ class Ctx:
         if r != z3.sat:
             raise Abort()
         mv = self.s.model().eval(e, model_completion=True)
+        if not (z3.is_int_value(mv) or z3.is_rational_value(mv)):
+            # the model holds algebraic numbers / partial functions: name the value and ask again
+            k = self.new_int("cz") if e.is_int() else self.new_real("cz")
+            if self.check(*ex, k == e) != z3.sat:
+                raise Abort()
+            mv = self.s.model().eval(k, model_completion=True)
         v = mv.as_long() if z3.is_int_value(mv) else mv.as_fraction()
         if self.check(*ex, e != v) != z3.unsat:
             self.pending.append(self.trace + [("n", excl + [v])])
@@ -158,9 +164,26 @@ class Ctx:
         p = _zb(prop)
         t0 = time.time()
         reach = "deferred"  # decided once per path by explore(): pc only grows, so the final pc being sat covers all
-        r = self.check(z3.Not(p))
+        np_ = z3.Not(p)
+        self.s.set("timeout", min(5000, self.timeout_ms))
+        r = self.check(np_)
+        relaxed = False
+        if r == z3.unknown:
+            # dropping hypotheses is sound for `unsat`: retry without the integer-rounding facts of the path
+            self.s.set("timeout", self.timeout_ms)
+            pc2 = [f for f in self.pc if not _has_toint(f)]
+            if len(pc2) < len(self.pc):
+                self.nq += 1
+                t1 = time.time()
+                r2 = self.s.check(*pc2, np_)
+                self.tq += time.time() - t1
+                if r2 == z3.unsat:
+                    r, relaxed = r2, True
+            if r == z3.unknown:
+                r = self.check(np_)
+        self.s.set("timeout", self.timeout_ms)
         rec = {"name": name, "result": str(r), "reach": str(reach), "path": len(self.results), "info": info,
-               "secs": round(time.time() - t0, 2)}
+               "secs": round(time.time() - t0, 2), "relaxed": relaxed}
         if r == z3.sat:
             rec["model"] = self.model_values()
             rec["replay"] = replay
@@ -198,6 +221,25 @@ class Ctx:
                 break
             got.append(self.model_values())
         return got
+
+
+def _has_toint(f, _cache={}):
+    k = f.get_id()
+    if k in _cache:
+        return _cache[k]
+    todo, seen, found = [f], set(), False
+    while todo:
+        t = todo.pop()
+        i = t.get_id()
+        if i in seen:
+            continue
+        seen.add(i)
+        if z3.is_app(t) and t.decl().kind() in (z3.Z3_OP_TO_INT, z3.Z3_OP_IS_INT, z3.Z3_OP_IDIV, z3.Z3_OP_MOD):
+            found = True
+            break
+        todo.extend(t.children())
+    _cache[k] = found
+    return found
 
 
 def _pyval(mv):
@@ -652,25 +694,41 @@ def _trig(e):
     return COS(x), SIN(x)
 
 
-def sint(x=0, *a):
+class _TypeLike(type):
+    """lets the patched `int` / `float` names still be used in `float | None` annotations-as-values"""
+
+    def __or__(cls, other):
+        return (cls,) + (other if isinstance(other, tuple) else (other,))
+
+    def __ror__(cls, other):
+        return (other if isinstance(other, tuple) else (other,)) + (cls,)
+
+    def __instancecheck__(cls, inst):
+        return sisinstance(inst, cls)
+
+
+class sint(metaclass=_TypeLike):
     """symbolic-aware int()"""
-    if isinstance(x, SNum):
-        if x.is_int:
-            return x
-        return SNum(z3.If(x.e >= 0, z3.ToInt(x.e), -z3.ToInt(-x.e)))
-    if isinstance(x, SBool):
-        return x._num()
-    if isinstance(x, np.ndarray) and x.dtype == object and x.shape == ():
-        return sint(x[()])
-    return int(x, *a)
+
+    def __new__(cls, x=0, *a):
+        if isinstance(x, SNum):
+            if x.is_int:
+                return x
+            return SNum(z3.If(x.e >= 0, z3.ToInt(x.e), -z3.ToInt(-x.e)))
+        if isinstance(x, SBool):
+            return x._num()
+        if isinstance(x, np.ndarray) and x.dtype == object and x.shape == ():
+            return sint(x[()])
+        return int(x, *a)
 
 
-def sfloat(x=0.0):
-    if isinstance(x, SNum):
-        return x if not x.is_int else SNum(z3.ToReal(x.e))
-    if isinstance(x, np.ndarray) and x.dtype == object and x.shape == ():
-        return sfloat(x[()])
-    return float(x)
+class sfloat(metaclass=_TypeLike):
+    def __new__(cls, x=0.0):
+        if isinstance(x, SNum):
+            return x if not x.is_int else SNum(z3.ToReal(x.e))
+        if isinstance(x, np.ndarray) and x.dtype == object and x.shape == ():
+            return sfloat(x[()])
+        return float(x)
 
 
 def sround(x, n=None):
@@ -688,6 +746,9 @@ _FLOAT_T = (float, np.floating)
 
 
 def sisinstance(x, t):
+    import types
+    if isinstance(t, types.UnionType):
+        t = t.__args__
     ts = t if isinstance(t, tuple) else (t,)
     ts = tuple(int if tt is sint else float if tt is sfloat else tt for tt in ts)
     if isinstance(x, SNum):
@@ -832,7 +893,7 @@ class SComplex:
 
 def turns_mod1_eq(t1, t2):
     """exp(2 pi i t1) == exp(2 pi i t2)"""
-    return z3.IsInt(_real(t1) - _real(t2))
+    return z3.IsInt(_real(_z(t1)) - _real(_z(t2)))
 
 
 class Polar:
